@@ -22,6 +22,7 @@ pub enum Target {
     LenPlus1,
     Big32(u8),
     Big255(u8),
+    Big64(u8),
     Computed(u8),
     /// a target that is not a constant (CALLDATALOAD(0))
     Symbolic,
@@ -71,10 +72,10 @@ pub fn alphabet() -> Vec<Tk> {
         Tk::PushJumpdests,
         Tk::Sentinel,
     ];
-    for t in [Label(0), Label(1), IntoPush, AfterLabel(0), Len, LenPlus1, Big32(0), Big255(0), Computed(0)] {
+    for t in [Label(0), Label(1), IntoPush, AfterLabel(0), Len, LenPlus1, Big32(0), Big64(0), Big255(0), Computed(0)] {
         v.push(Tk::J(t));
     }
-    for t in [Label(0), Label(1), IntoPush, AfterLabel(0), Len, Big32(0)] {
+    for t in [Label(0), Label(1), IntoPush, AfterLabel(0), Len, Big32(0), Big64(0)] {
         v.push(Tk::JI(Cond::Unknown, t));
     }
     v.push(Tk::JI(Cond::One, Label(0)));
@@ -91,6 +92,7 @@ fn push_target(t: Target, out: &mut Vec<Tok>) {
         Target::LenPlus1 => out.push(Tok::PushLen(1)),
         Target::Big32(k) => out.push(Tok::PushLabel(k, U::pow2(32))),
         Target::Big255(k) => out.push(Tok::PushLabel(k, U::pow2(255))),
+        Target::Big64(k) => out.push(Tok::PushLabel(k, U::pow2(64))),
         Target::Symbolic => {
             out.push(Tok::Op(op::PUSH0));
             out.push(Tok::Op(op::CALLDATALOAD));
@@ -106,7 +108,7 @@ fn push_target(t: Target, out: &mut Vec<Tok>) {
 
 fn labels_needed(t: Target) -> usize {
     match t {
-        Target::Label(k) | Target::AfterLabel(k) | Target::Big32(k) | Target::Big255(k) | Target::Computed(k) => {
+        Target::Label(k) | Target::AfterLabel(k) | Target::Big32(k) | Target::Big255(k) | Target::Big64(k) | Target::Computed(k) => {
             k as usize + 1
         }
         _ => 0,
@@ -306,8 +308,8 @@ impl Check for C08 {
             total.get("with_jump_and_exact_cfg"),
             &format!(
                 "all token sequences of length <= {} over {} control-flow tokens (JUMPDEST, constants, 6 halting instructions incl. \
-                 SELFDESTRUCT/INVALID/unassigned, a PUSH2 holding JUMPDEST bytes, a sentinel store, JUMP x 9 target kinds, JUMPI x 3 \
-                 condition kinds x 6 target kinds: labels, into push data, byte after a label, len, len+1, 2^32+label, 2^255+label, \
+                 SELFDESTRUCT/INVALID/unassigned, a PUSH2 holding JUMPDEST bytes, a sentinel store, JUMP x 10 target kinds, JUMPI x 3 \
+                 condition kinds x 7 target kinds: labels, into push data, byte after a label, len, len+1, 2^32+label, 2^64+label, 2^255+label, \
                  computed constant). For each program the real VM's executed-offset set (restricted to instruction boundaries) is \
                  compared with a reference EVM control-flow exploration: always a subset of the over-approximated CFG; for loop-free \
                  programs equal to the exact reachable set on non-JUMPDEST offsets. states = distinct programs with a jump whose \
